@@ -94,6 +94,7 @@ def run_program(chk, da, prog, sources, want, optimize):
                       signature={"class": "block-shape" if "block" in problems[0] else "metadata", "root_op": prog[0],
                                  "swv_reduction": any(q[0] == "swv" and q[4] is not None for q in nodes),
                                  "zero_length_axis": any(s == 0 for s in adv[0]),
+                                 "reduce_below_root": any(q[0] == "reduce" for q in nodes[1:]),
                                  "unstable_chunks_below_root": _unstable(prog, sources),
                                  **({"call": progs.call_tag(prog, sources)} if prog[0] == "call" else {})})
     else:
